@@ -27,8 +27,15 @@ struct Res {
     rid: u64,
     genr: u64,
 }
+/// how long one `Res::reset` takes (stress mode: long enough for other threads to get in the way if the
+/// pool lets them; under the real lock discipline they just wait)
+static RESET_SLEEP_US: AtomicU64 = AtomicU64::new(0);
 impl Reset for Res {
     fn reset(&mut self) -> StdResult<()> {
+        let us = RESET_SLEEP_US.load(Ordering::Relaxed);
+        if us > 0 {
+            std::thread::sleep(Duration::from_micros(us));
+        }
         Ok(())
     }
 }
@@ -116,6 +123,7 @@ enum Cmd {
     Drop,
     GiveBackItem,
     Refresh,
+    Reset,
     Exit,
 }
 
@@ -181,6 +189,10 @@ fn worker(idx: usize, w: Arc<World>, sh: Arc<Shared>, rx: Receiver<Cmd>) {
                 }
             }
             Cmd::Refresh => refresh(wref, &sh),
+            Cmd::Reset => {
+                wref.pool.reset_available_resources().unwrap();
+                sh.log(json!({"ev":"ResetDone"}));
+            }
         }
         let mut s = sh.sched.lock().unwrap();
         s.state[idx] = PState::Idle;
@@ -228,6 +240,7 @@ fn start(names: &[String], size: usize, controlled: bool, timeout_ms: u64) -> Ru
 
 impl Run {
     fn stop(self) -> Vec<Value> {
+        let w = self.w.clone();
         {
             // release anybody still parked, then let everything finish freely
             let mut s = self.sh.sched.lock().unwrap();
@@ -244,7 +257,9 @@ impl Run {
             let _ = h.join();
         }
         verif_hooks::install(None);
-        let ev = std::mem::take(&mut *self.sh.events.lock().unwrap());
+        let mut ev = std::mem::take(&mut *self.sh.events.lock().unwrap());
+        // every thread is done: how many resources the pool holds now
+        ev.push(json!({"ev":"PoolLen","len": w.pool.count().unwrap_or(0),"t":"main"}));
         ev
     }
 
@@ -318,6 +333,7 @@ fn main() {
                         "BeginDrop" => run.command(p, Cmd::Drop),
                         "BeginGiveBackItem" => run.command(p, Cmd::GiveBackItem),
                         "RfBegin" => run.command(p, Cmd::Refresh),
+                        "RsBegin" => run.command(p, Cmd::Reset),
                         _ => run.release(p),
                     }
                     steps_total += 1;
@@ -366,10 +382,13 @@ fn main() {
             let rounds = args.num("rounds", 50);
             let users = args.num("users", 3) as usize;
             let mut ops_total = 0u64;
+            let mut resets_total = 0u64;
             for round in 0..rounds {
                 let size = 1 + (round % 3) as usize;
                 let mut procs: Vec<String> = (1..=users).map(|i| format!("u{i}")).collect();
                 procs.push("rf".into());
+                procs.push("rs".into());
+                RESET_SLEEP_US.store(args.num("reset-us", 250), Ordering::Relaxed);
                 let run = start(&procs, size, false, 3);
                 trace.emit(json!({"ev":"NewPool","size":size,"sched":format!("stress-{round}"),"t":"main"}));
                 let stop = Arc::new(AtomicBool::new(false));
@@ -378,7 +397,16 @@ fn main() {
                 let mut r = rng(seed, 1800 + round);
                 let mut hold = vec![false; users];
                 for _ in 0..args.num("ops", 60) {
-                    let p = below(&mut r, users as u64 + 1) as usize;
+                    let p = below(&mut r, users as u64 + 2) as usize;
+                    if p == users + 1 {
+                        // the resetter: reset_available_resources while everybody else is at work
+                        if below(&mut r, 2) == 0 {
+                            run.tx[p].send(Cmd::Reset).unwrap();
+                            ops_total += 1;
+                            resets_total += 1;
+                        }
+                        continue;
+                    }
                     if p == users {
                         if below(&mut r, 4) == 0 {
                             run.tx[p].send(Cmd::Refresh).unwrap();
@@ -404,6 +432,8 @@ fn main() {
             }
             summary.insert("rounds", json!(rounds));
             summary.insert("ops", json!(ops_total));
+            summary.insert("resets", json!(resets_total));
+            RESET_SLEEP_US.store(0, Ordering::Relaxed);
         }
         m => panic!("unknown mode {m}"),
     }
